@@ -10,6 +10,7 @@ import (
 	"reflect"
 	"strings"
 
+	"github.com/antonmedv/expr"
 	"github.com/antonmedv/expr/parser"
 	"github.com/antonmedv/expr/vm"
 )
@@ -252,6 +253,12 @@ func countCreated(v interface{}) int {
 }
 
 // ---------------------------------------------------------------- C07
+type keptRes struct {
+	i   int
+	out interface{}
+	was string
+}
+
 func runC07() {
 	rep := newReport("C07")
 	rng := rand.New(rand.NewSource(*seed))
@@ -293,6 +300,7 @@ func runC07() {
 		reused := &vm.VM{}
 		n := 2 + rng.Intn(maxLen)
 		var hist []string
+		var kept []keptRes
 		cumulative, crossings := 0, 0
 		for i := 0; i < n; i++ {
 			c := cs[rng.Intn(len(cs))]
@@ -310,6 +318,19 @@ func runC07() {
 			if cumulative >= budget {
 				crossings++
 				cumulative = 0
+			}
+			// results of EARLIER runs on the reused VM are the caller's: a later run must not change them
+			for _, k := range kept {
+				if now := cqValue(k.out); now != k.was {
+					rep.fail(Failure{Key: "C07-earlier-result-changed", What: "the value returned by an earlier run on the reused VM changed during a later run",
+						Input: map[string]interface{}{"budget": budget, "history": append([]string{}, hist...), "earlier_run": k.i + 1},
+						Want:  k.was, Got: now})
+					kept = nil
+					break
+				}
+			}
+			if err1 == nil && len(kept) < 6 {
+				kept = append(kept, keptRes{i, out1, cqValue(out1)})
 			}
 			same := cqValue(out1) == cqValue(out2) && fmt.Sprint(err1) == fmt.Sprint(err2)
 			if err1 == nil {
@@ -329,6 +350,70 @@ func runC07() {
 			distinct[strings.Join(hist, ";")] = true
 		}
 		rep.hist(fmt.Sprintf("history crossing the budget %s times", bucket(crossings)))
+	}
+	// ---- histories on a MAP environment whose function members are replaced between runs, and on the same program
+	// with different environment values of one type (a lookup remembered from an earlier run must not be reused)
+	{
+		vm.MemoryBudget = old
+		mk := func(tag int) func(x int) int { return func(x int) int { return x*10 + tag } }
+		mkFast := func(tag string) func(xs ...interface{}) interface{} {
+			return func(xs ...interface{}) interface{} { return tag }
+		}
+		srcsM := []string{"F(2)", "[F(1), F(2)]", "map(1..2, {F(#)})", "G(1)", "F(1) + I", "[G(), G(1, 2)]", "filter(1..3, {F(#) > 15})"}
+		for _, src := range srcsM {
+			for _, typed := range []bool{false, true} {
+				m := map[string]interface{}{"F": mk(1), "G": mkFast("g1"), "I": 1}
+				var ops []expr.Option
+				if typed {
+					ops = append(ops, expr.Env(m))
+				}
+				prog, err := expr.Compile(src, ops...)
+				if err != nil {
+					continue
+				}
+				reused := &vm.VM{}
+				steps := []func(){
+					func() {}, func() { m["F"] = mk(2) }, func() { m["G"] = mkFast("g2") }, func() { m["I"] = 5 },
+					func() { m["F"], m["G"] = mk(3), mkFast("g3") }, func() { m = map[string]interface{}{"F": mk(4), "G": mkFast("g4"), "I": 7} },
+				}
+				for si, st := range steps {
+					st()
+					out1, err1 := reused.Run(prog, m)
+					out2, err2 := (&vm.VM{}).Run(prog, m)
+					rep.Evaluations += 2
+					if fmt.Sprintf("%#v", out1) != fmt.Sprintf("%#v", out2) || fmt.Sprint(err1) != fmt.Sprint(err2) {
+						rep.fail(Failure{Key: "C07-reuse-differs", What: "a run on a reused VM differs from the run on a fresh VM (map environment whose function members were replaced between runs)",
+							Input: map[string]interface{}{"src": src, "typed": typed, "step": si}, Want: fmt.Sprintf("%#v / %v", out2, err2), Got: fmt.Sprintf("%#v / %v", out1, err1)})
+						break
+					}
+				}
+				distinct["mapenv|"+src] = true
+			}
+		}
+		// the same program on different struct environments in turn
+		for _, src := range []string{"Add(I, 1)", "Twice(I)", "St.Get() + P.Get()", "Fast(I, S)", "map(AI, {Inc(#)})"} {
+			tree, prog, _, err := pipeline(src, modeTyped.options(envs[0]))
+			_ = tree
+			if err != nil {
+				continue
+			}
+			reused := &vm.VM{}
+			for k := 0; k < 8; k++ {
+				e := envs[(k*3+1)%len(envs)]
+				callLog = nil
+				out1, err1 := reused.Run(prog, e)
+				l1 := cqTrace(callLog)
+				callLog = nil
+				out2, err2 := (&vm.VM{}).Run(prog, e)
+				l2 := cqTrace(callLog)
+				rep.Evaluations += 2
+				if cqValue(out1) != cqValue(out2) || fmt.Sprint(err1) != fmt.Sprint(err2) || l1 != l2 {
+					rep.fail(Failure{Key: "C07-reuse-differs", What: "a run on a reused VM differs from the run on a fresh VM (same program, another environment value)",
+						Input: map[string]interface{}{"src": src, "run": k + 1}, Want: fmt.Sprintf("%v / %v / %s", out2, err2, l2), Got: fmt.Sprintf("%v / %v / %s", out1, err1, l1)})
+					break
+				}
+			}
+		}
 	}
 	rep.Distinct = len(distinct)
 	rep.Rule = "random histories of 2..24 (thorough 2..120) runs on ONE vm.VM value, drawn from a pool of succeeding programs, programs failing inside nested loops, calls of a panicking function and allocating programs, under budgets 7/20/50/10^6 so that the cumulative allocation crosses the budget many times; each run is compared with the same run on a fresh vm.VM (value with dynamic types, error text); distinct_nontrivial = distinct histories whose cumulative allocation crosses the budget at least once; every reused-VM run is also compared with the Coq model's fresh run"
